@@ -73,23 +73,23 @@ CHECKS = {
             "Trusted: scipy interpolators; per-method tolerances (Lagrange in the monomial basis loses ~1e-5 with six nodes); finite-difference consistency tolerances.",
             "DESIGN.md section 4 C11"),
     "C12": ("model_checking",
-            "TLC enumerates the space of valid configurations (spec/ConfigSpace.tla over Interp!Adm, 10 560 states) and checks the IEEE class transfer of the Bose factors (spec/FloatClass.tla); a stratified sample of the enumerated configurations is concretised and run, finiteness/realness/T=0 clauses observed on the results",
-            "The configuration space is a TLC-enumerated set rather than three example files; every interpolator, system and T_MIN class is present in each run (48 quick / 1500 thorough configurations); results are checked for dtype, finiteness of isothermal moduli everywhere, adiabatic where C_V>0, averages where positive definite, exact zero gap at T=0 and c(T)->c(0).",
+            "TLC enumerates the space of valid configurations (spec/ConfigSpace.tla over Interp!Adm: interpolator x admissible order x number of volumes 5/8/12 x system x T_MIN x DT x lattice block, about 37 000 states, plus exported sets of secondary settings NT, QHA fit order, volume ratio) and checks the IEEE class transfer of the Bose factors (spec/FloatClass.tla); a stratified sample of the enumerated configurations is concretised and run, finiteness/realness/T=0 clauses observed on the results",
+            "The configuration space is a TLC-enumerated set rather than three example files; every (interpolator, order, nv) triple, system and (T_MIN, DT) class is present in each run (110 quick / 2500 thorough configurations); results are checked for dtype, finiteness of isothermal moduli everywhere, adiabatic where C_V>0, averages where positive definite, exact zero gap at T=0 and c(T)->c(0).",
             "Finiteness is a floating-point observation; the specification enumerates where to look and predicts the Bose classes. Sampled, not exhaustive, at the implementation level.",
             "DESIGN.md section 4 C12"),
     "C13": ("model_checking",
-            "TLC checks that every sequence of <= 4 re-presentation actions leaves the order-free denotation unchanged and that wrong actions change it (spec/Presentation.tla); simulated action sequences applied to synthetic file triples and all results compared with the baseline presentation",
-            "Model: 1901 presentation states with the denotation invariant. Implementation: each simulated sequence (and every single action) is applied to data sets with and without crystal system; moduli, averages, velocities and volumes must agree to 1e-7 of scale; re-ordered volume blocks must give the same results or an error.",
+            "TLC checks that every sequence of <= 4 re-presentation actions leaves the order-free denotation unchanged and that wrong actions change it (spec/Presentation.tla); simulated action sequences applied to synthetic file triples and all results compared with the baseline presentation; the shipped example re-presented at text level",
+            "Model: 1901 presentation states with the denotation invariant. Implementation: each simulated sequence (and every single action) is applied to data sets with and without crystal system, with non-power-law frequencies, a node-subsampling interpolator and nearly equal strain fractions, and to the shipped akimotoite files (blocks re-ordered verbatim; diopside in the thorough tier); moduli, averages, velocities and volumes must agree to 1e-7 of scale; re-ordered volume blocks must give the same results or an error.",
             "Trusted: Gamma-point modes are permuted among non-acoustic slots only; comparison tolerance 1e-7 (summation order).",
             "DESIGN.md section 4 C13"),
     "C14": ("model_checking",
-            "TLC model of process histories (spec/Lifecycle.tla: observation law, frozen shared state, stable calculators; all histories <= 6 actions); simulated histories executed one per fresh interpreter process under their hash seed and working directory; logged digests validated by Trace_Lifecycle.tla against a fresh reference run per configuration",
-            "Every observation (arrays, written files, static table after re-filling, `cij run` output) of every process must carry the digest of the single fresh reference run of its configuration, the shared module state must never change, and other live calculators must be untouched after every action; histories include two different calculations interleaved in both orders, repeated reads/writes, seeds 0/1/2/random and three working-directory variants.",
+            "TLC model of process histories (spec/Lifecycle.tla: observation law, frozen shared state and working directory, stable calculators, files at a settings path replaced between constructions; all histories <= 6 actions); simulated histories executed one per fresh interpreter process under their hash seed and working directory; logged digests validated by Trace_Lifecycle.tla against a fresh reference run per configuration",
+            "Every observation (arrays, written files, static table after re-filling, `cij run` output) of every process must carry the digest of the single fresh reference run of its configuration, the shared module state must never change, and other live calculators must be untouched after every action; histories include two different calculations (also two with identical array shapes) interleaved in both orders, repeated reads/writes, the files at a path rewritten between two constructions, seeds 0/1/2/random and three working-directory variants; every event logs the process's working directory, which must stay where it started; a calculation that only works when started inside its data directory is a violation.",
             "Trusted: SHA-256 digests stand for byte identity; the re-filled static table is compared to nine significant digits; shared state = writer rules + unit conversions.",
             "DESIGN.md section 4 C14"),
     "C17": ("model_checking",
             "TLC runs the input01 reader state machine (spec/Formats.tla) on every small document and checks Read(Write(d)) = d, weight pairing, no error, termination; the specification's documents are read by the real reader and the real writer's files are run through the specification's reader machine by TLC; random round trips, static tables, `cij fill` round trip",
-            "Both directions are bound: spec documents -> read_energy (parse equals the TLC-exported expectation), write_energy output -> tokenised -> TLC reader machine (RoundTrip invariant). Plus 20/300 random data sets (1-12 x 1-10 x 3-60, either sign, to 1e5) to the written precision, 30/400 static tables with random column order/prefix/case/lattice block, and the fill command for nine systems.",
+            "Both directions are bound: spec documents -> read_energy (parse equals the TLC-exported expectation), write_energy output -> tokenised -> TLC reader machine (RoundTrip invariant). Plus 20/300 random data sets (1-12 x 1-10 x 3-60, either sign, to 1e5) to the written precision, 30/400 static tables with random column order, every spelling of the labels (prefix, case, lower-triangle, four-index), notation/separator/line-end variants, lattice block or trailing blank lines, and the fill command for nine systems.",
             "Trusted: the independent renderer/tokeniser of the harness; 'written precision' = half a unit of the last printed digit; fill payloads <= 4 decimals.",
             "DESIGN.md section 4 C17"),
     "C19": ("model_checking",
